@@ -883,6 +883,41 @@ func c13WholeRuns(c *vh.Ctx) {
 			rp["days_without_mean_temperature"] = days
 			compareRuns(c, "run:weather-yearfiles-vs-csv:mean-temperature-missing", "weather as one file per year vs multi-year CSV, mean temperature not available on some days", bc, by, "VYCM", rp)
 		}
+		// the monthly precipitation correction (preco.txt in the weather folder) with factors that differ from month to
+		// month: all three layouts, a window of two or three years (leap and non-leap), rain on the last and first days of months
+		{
+			preco := func(root string) error {
+				var b strings.Builder
+				b.WriteString("Mo factor\n")
+				for m := 0; m < 12; m++ {
+					fmt.Fprintf(&b, "%02d %4.2f\n", m+1, 1.02+0.04*float64((m*7+int(seed%5))%12))
+				}
+				return os.WriteFile(filepath.Join(root, "weather", "gen", "preco.txt"), []byte(b.String()), 0o644)
+			}
+			wet := func(p *proj.Project) {
+				p.Cfg["CorrectionPrecipitation"] = "1"
+				for i := range p.Weather {
+					d := p.Weather[i].Date
+					if d.D == 1 || d.AddDays(1).D == 1 || (d.M == 2 && d.D >= 27) || (d.M == 3 && d.D <= 2) {
+						p.Weather[i].Precip = 3.5 + float64((d.M*3+d.D)%9)
+					}
+				}
+			}
+			pc := mk()
+			wet(pc)
+			bc := runProject(c, root("preco_csv"), pc, preco)
+			for _, lay := range []int{0, 2} {
+				pv := mk()
+				wet(pv)
+				pv.UseWeatherLayout(lay, false, 0, 2)
+				bv := runProject(c, root(fmt.Sprintf("preco_l%d", lay)), pv, preco)
+				runs++
+				c.Eval()
+				c.Nontrivial(fmt.Sprintf("q%d/preco%d", k, lay))
+				compareRuns(c, fmt.Sprintf("run:weather-layout%d-vs-csv:precipitation-correction", lay), fmt.Sprintf("weather layout %d vs multi-year CSV with the monthly precipitation correction switched on", lay), bc, bv, "VYCM", replay("weather layouts, precipitation correction"))
+			}
+			runs++
+		}
 		// station height and wind height in the third header line: year files vs multi-year CSV
 		{
 			alt, wh := float64(50+int(seed%400)), []float64{2, 10, 1.2}[int(seed>>8)%3]
